@@ -154,27 +154,35 @@ Definition linearise_doubled (t : rtree) : list did :=
 Definition is_ket (d : did) : bool := match d with DN _ Ket => true | _ => false end.
 Definition contraction_order (t : rtree) : list did := filter is_ket (linearise_doubled t).
 
+(* the same filter as the code applies it, on the names: match(".*"+ket_suffix, name) *)
+Definition contraction_order_s (root_name ksuf bsuf : string) (names : nat -> string) (t : rtree) : list did :=
+  filter (fun d => is_ket_s ksuf (name_of root_name ksuf bsuf names d)) (linearise_doubled t).
+
 (* ---- the calls from_ttns makes ------------------------------------------------------ *)
 (* add_symmetric_children_to_parent(child_id, ket_tensor, bra_tensor, child_leg, parent_id,
    parent_leg, parent_bra_leg); sc_parent = None stands for the artificial root *)
 Record sym_call := { sc_child : nat; sc_shape : list nat; sc_child_leg : nat;
                      sc_parent : option nat; sc_parent_leg : nat; sc_parent_bra_leg : nat }.
 
+(* for j, a in enumerate(l, start=j): concatenate f j a *)
+Section FlatMapI.
+  Context {A B : Type} (f : nat -> A -> list B).
+  Fixpoint flat_mapi (j : nat) (l : list A) : list B :=
+    match l with [] => [] | a :: r => f j a ++ flat_mapi (S j) r end.
+End FlatMapI.
+
 (* _rec_add_children(ttns, ttndo, node): parent_leg = node.neighbour_index(child) + int(node.is_root()),
-   child_leg = child_node.parent_leg = 0 *)
+   child_leg = child_node.parent_leg = 0; j is the position of the child in node.children *)
+Definition child_call (bond phys : nat -> nat) (is_root : bool) (i j : nat) (c : rtree) : sym_call :=
+  let nb_index := if is_root then j else j + 1 in
+  let pleg := nb_index + (if is_root then 1 else 0) in
+  {| sc_child := rid c; sc_shape := ttns_shape bond phys false c; sc_child_leg := 0;
+     sc_parent := Some i; sc_parent_leg := pleg; sc_parent_bra_leg := pleg |}.
+
 Fixpoint rec_add_children (bond phys : nat -> nat) (is_root : bool) (t : rtree) : list sym_call :=
   match t with
   | RNode i cs =>
-      (fix go (j : nat) (l : list rtree) : list sym_call :=
-         match l with
-         | [] => []
-         | c :: r =>
-             let nb_index := if is_root then j else j + 1 in
-             let pleg := nb_index + (if is_root then 1 else 0) in
-             {| sc_child := rid c; sc_shape := ttns_shape bond phys false c; sc_child_leg := 0;
-                sc_parent := Some i; sc_parent_leg := pleg; sc_parent_bra_leg := pleg |}
-             :: rec_add_children bond phys false c ++ go (S j) r
-         end) 0 cs
+      flat_mapi (fun j c => child_call bond phys is_root i j c :: rec_add_children bond phys false c) 0 cs
   end.
 
 (* the padded root tensor: reshape to (1, shape...), pad axis 0 by (0, k-1) *)
@@ -254,3 +262,51 @@ Definition tp_log {Op : Type} (bug_loop bug_empty : bool) (factors : list (nat *
 Definition tp_obs (bug_loop bug_empty : bool) (nodes : list nat) : bool * list (nat * nat) :=
   let r := tp_log bug_loop bug_empty (combine nodes (seq 0 (List.length nodes))) in
   (match fst r with FTrace => true | FScalarProduct => false end, map (fun x => (code (fst x), snd x)) (snd r)).
+
+(* ================================================================================== *)
+(* D. executable checks and observations used by the correspondence                   *)
+(* ================================================================================== *)
+Definition opt_nat_eqb (a b : option nat) : bool :=
+  match a, b with Some x, Some y => Nat.eqb x y | None, None => true | _, _ => false end.
+
+Definition rec5_eqb (a b : nat * option nat * list nat * list nat * list nat) : bool :=
+  let '(i1, p1, c1, q1, s1) := a in
+  let '(i2, p2, c2, q2, s2) := b in
+  Nat.eqb i1 i2 && opt_nat_eqb p1 p2 && Store.list_eqb c1 c2 && Store.list_eqb q1 q2 && Store.list_eqb s1 s2.
+
+Fixpoint all2 {A} (f : A -> A -> bool) (l1 l2 : list A) : bool :=
+  match l1, l2 with
+  | [], [] => true
+  | a :: r1, b :: r2 => f a b && all2 f r1 r2
+  | _, _ => false
+  end.
+
+(* per instance: the store program of from_ttns is accepted step by step by the Layer-W model
+   and leaves exactly the node records of `doubled` (same dictionary order, identity leg
+   permutations, same shapes), the artificial root being the store's root *)
+Definition store_check (bond phys : nat -> nat) (k : nat) (t : rtree) : bool :=
+  let r := from_ttns_store bond phys k t in
+  forallb (fun b => b) (snd r) &&
+  all2 rec5_eqb (store_nodes (fst r)) (doubled_coded bond phys k t) &&
+  opt_nat_eqb (Store.root (fst r)) (Some (code DRoot)) &&
+  Store.list_eqb (map fst (Store.tensors (fst r))) (map fst (Store.nodes (fst r))).
+
+(* a child's leg 0 and the leg of its parent it was attached to are the same wire *)
+Definition wires_check (s : Store.store) : bool :=
+  forallb (fun kn =>
+    match Store.parent (snd kn) with
+    | None => true
+    | Some p =>
+        match Store.aget p (Store.nodes s), Store.logical s p, Store.logical s (fst kn) with
+        | Some pn, Some pt, Some ct =>
+            match Store.neighbour_index pn (fst kn) with
+            | Some j => Nat.eqb (nth j (Store.axes pt) 0) (nth 0 (Store.axes ct) 1)
+            | None => false
+            end
+        | _, _, _ => false
+        end
+    end) (Store.nodes s).
+
+Definition build_obs (bond phys : nat -> nat) (k : nat) (t : rtree) :=
+  (doubled_coded bond phys k t, map code (contraction_order t), eye_rows k, pad_pattern k,
+   (store_check bond phys k t, wires_check (fst (from_ttns_store bond phys k t)))).
